@@ -245,7 +245,20 @@ def copyMove (s : Srv) (i : Nat) (move byUid : Bool) (set : List Elem) (dest pic
               { (s1.setBox x.box (Mailbox.pop (s1.box x.box) u).1) with grave := (x.box, u, m.flags) :: s1.grave }
             else s1
           (s2, acc.2 ++ [(u, du)])
-      let r := tg.foldl step (s, [])
+      let r :=
+        if dest ≠ x.box then
+          -- distinct mailboxes: exactly `Session.copyCmd` on the destination and `Session.moveSrc` on the source (the
+          -- refinement theorems C10_copy_refines / C10_move_refines speak about these two)
+          let src := s.box x.box
+          let ms := sourceMsgs src x.view byUid set
+          let c := copyCmd src (s.box dest) x.view byUid set j.isNone
+          let s1 := c.2.foldl (fun acc du => addRecentTo acc j du) (s.setBox dest c.1)
+          let s2 := if move then
+              { (s1.setBox x.box (moveSrc src (ms.map (·.uid)))) with
+                  grave := (ms.map (fun m => (x.box, m.uid, m.flags))).reverse ++ s1.grave }
+            else s1
+          (s2, (ms.map (·.uid)).zip c.2)
+        else tg.foldl step (s, [])
       let code := if r.2.isEmpty then "" else s!"COPYUID {showNats (r.2.map (·.1))} {showNats (r.2.map (·.2))}"
       -- own selection may have been given `\Recent` for the copies (dest = own mailbox): re-read it
       match r.1.sel i with
